@@ -253,7 +253,7 @@ theorem stitch_column (dfs : List TS) (i j n w : Nat) (t : Int) (hj : j < n) (hi
     simp only [List.length_map, List.length_take, List.length_drop]; omega
   unfold padRow
   rw [List.getElem?_append_left hlen]
-  simp [List.getElem?_take, hj, List.getElem?_drop, hij]
+  simp [hj, List.getElem?_drop, hij]
 
 /-- **stitch_once**: with brackets that are not closed on both sides (in particular the default `'(]'`) the stitched
     index is strictly increasing: every timestamp is covered at most once, in order.  General form: whenever the
